@@ -15,6 +15,7 @@ import time
 
 VERIF = os.path.dirname(os.path.dirname(os.path.abspath(__file__)))
 REPO = os.path.realpath(os.environ.get("VERIF_REPO", "/repo"))
+OUT = os.environ.get("VERIF_OUT", VERIF)  # evidence/ and replays/ go here (mutation runs use a scratch dir)
 NPROC = int(os.environ.get("VERIF_NPROC", "16"))
 HANG_S = float(os.environ.get("VERIF_HANG_S", "20"))
 _bound = False
@@ -245,14 +246,14 @@ def run_check(mod, tier):
 
 
 def finish(mod, tier, seed, total, nshards, wall):
-    os.makedirs(os.path.join(VERIF, "replays"), exist_ok=True)
-    os.makedirs(os.path.join(VERIF, "evidence"), exist_ok=True)
+    os.makedirs(os.path.join(OUT, "replays"), exist_ok=True)
+    os.makedirs(os.path.join(OUT, "evidence"), exist_ok=True)
     findings = load_findings()
     lines = []
     n = 0
     for (sub, cls), (cnt, case, msg, _size) in sorted(total.viol.items(), key=lambda kv: (kv[0][0], kv[0][1])):
         n += 1
-        path = os.path.join(VERIF, "replays", f"{mod.ID}-{n}.json")
+        path = os.path.join(OUT, "replays", f"{mod.ID}-{n}.json")
         with open(path, "w") as fh:
             json.dump({"property": mod.ID, "sub": sub, "cls": cls, "count": cnt, "case": case, "message": msg},
                       fh, indent=1, default=str, ensure_ascii=True)
@@ -300,7 +301,7 @@ def finish(mod, tier, seed, total, nshards, wall):
         "wall_s": round(wall, 2),
         "violations": len(lines),
     }
-    with open(os.path.join(VERIF, "evidence", f"{mod.ID}.json"), "w") as fh:
+    with open(os.path.join(OUT, "evidence", f"{mod.ID}.json"), "w") as fh:
         json.dump(ev, fh, indent=1, default=str)
     print(f"{mod.ID} tier={tier} seed={seed} evaluations={total.evaluations} distinct={len(total.sigs)} "
           f"skipped_crash={total.skipped_crash} skipped_hang={total.skipped_hang} "
